@@ -9,16 +9,22 @@ use rand::Rng;
 use serde_json::{json, Value as J};
 use std::sync::Arc;
 
+/// every marker descriptor also calls back into the engine (parse + describe of a literal) before it answers: user descriptors may
+/// do that, and describe() must still return
+fn reenter() {
+    let _ = parse_expression("7").map(|a| a.describe());
+}
+
 fn set_marker(kind: &str, name: &str, id: &str) {
     let id = id.to_string();
     let mut dm = DescriptorManager::new();
     match kind {
-        "unary" => dm.set_unary_descriptor(name.to_string(), Arc::new(move |op, rhs| format!("<{}|{}|{}>", id, op, rhs))),
-        "binary" => dm.set_binary_descriptor(name.to_string(), Arc::new(move |op, l, r| format!("<{}|{}|{},{}>", id, op, l, r))),
-        "postfix" => dm.set_postfix_descriptor(name.to_string(), Arc::new(move |l, op| format!("<{}|{}|{}>", id, l, op))),
-        "ternary" => dm.set_ternary_descriptor(Arc::new(move |c, l, r| format!("<{}|{},{},{}>", id, c, l, r))),
-        "function" => dm.set_function_descriptor(name.to_string(), Arc::new(move |n, ps| format!("<{}|{}|{}>", id, n, ps.join(",")))),
-        "reference" => dm.set_reference_descriptor(name.to_string(), Arc::new(move |n| format!("<{}|{}>", id, n))),
+        "unary" => dm.set_unary_descriptor(name.to_string(), Arc::new(move |op, rhs| { reenter(); format!("<{}|{}|{}>", id, op, rhs) })),
+        "binary" => dm.set_binary_descriptor(name.to_string(), Arc::new(move |op, l, r| { reenter(); format!("<{}|{}|{},{}>", id, op, l, r) })),
+        "postfix" => dm.set_postfix_descriptor(name.to_string(), Arc::new(move |l, op| { reenter(); format!("<{}|{}|{}>", id, l, op) })),
+        "ternary" => dm.set_ternary_descriptor(Arc::new(move |c, l, r| { reenter(); format!("<{}|{},{},{}>", id, c, l, r) })),
+        "function" => dm.set_function_descriptor(name.to_string(), Arc::new(move |n, ps| { reenter(); format!("<{}|{}|{}>", id, n, ps.join(",")) })),
+        "reference" => dm.set_reference_descriptor(name.to_string(), Arc::new(move |n| { reenter(); format!("<{}|{}>", id, n) })),
         "list" => dm.set_list_descriptor(Arc::new(move |ps| format!("<{}|{}>", id, ps.join(",")))),
         "map" => dm.set_map_descriptor(Arc::new(move |kvs| format!("<{}|{}>", id, kvs.iter().map(|(k, v)| format!("{}={}", k, v)).collect::<Vec<_>>().join(",")))),
         "chain" => dm.set_chain_descriptor(Arc::new(move |ps| format!("<{}|{}>", id, ps.join(",")))),
@@ -87,7 +93,27 @@ pub fn child(args: &[String]) {
 
 fn run_child(file: &str, idx: usize) -> J {
     let exe = std::env::current_exe().unwrap();
-    let o = std::process::Command::new(exe).args(["describe-child", file, &idx.to_string()]).output().unwrap_or_else(|e| tool_error(&e.to_string()));
+    let mut child = std::process::Command::new(exe)
+        .args(["describe-child", file, &idx.to_string()])
+        .stdout(std::process::Stdio::piped())
+        .stderr(std::process::Stdio::null())
+        .spawn()
+        .unwrap_or_else(|e| tool_error(&e.to_string()));
+    // a describe() that never returns (a descriptor re-entering the engine under a held lock) is reported, not waited for
+    let t0 = std::time::Instant::now();
+    loop {
+        match child.try_wait() {
+            Ok(Some(_)) => break,
+            Ok(None) if t0.elapsed().as_secs() >= 30 => {
+                let _ = child.kill();
+                let _ = child.wait();
+                return json!({"actual": [], "died": "describe() did not return within 30 s"});
+            }
+            Ok(None) => std::thread::sleep(std::time::Duration::from_millis(5)),
+            Err(e) => tool_error(&e.to_string()),
+        }
+    }
+    let o = child.wait_with_output().unwrap_or_else(|e| tool_error(&e.to_string()));
     if !o.status.success() {
         return json!({"actual": [], "died": format!("{:?}", o.status)});
     }
